@@ -13,6 +13,15 @@ Theorem C06_fs_check_ok_means_real_run_does_nothing : forall e t s s1 c2 s2,
   no_alias t (sw s) = true -> known_empty_create t (sw s) = false -> c2 = false /\ s2 = s.
 Proof. exact fs_check_ok_means_real_noop. Qed.
 
-(* pacman: changed, packages to install, packages to remove and `upgraded` are identical *)
-Theorem C06_pacman_check_predicts_real : forall p s, fst (pacman p true s) = fst (pacman p false s).
+(* pacman: changed, packages to install, packages to remove and `upgraded` are identical, unless the
+   refresh that check mode must skip would change the answer to "upgradable?" (K24) *)
+Theorem C06_pacman_check_predicts_real : forall p s,
+  known_check_skips_refresh p (pdb s) = false -> fst (pacman p true s) = fst (pacman p false s).
 Proof. exact pacman_predicts. Qed.
+Theorem C06_pacman_refuted_K24 :
+  let d := {| installed := []; explicit := []; sysver := 1; dbver := 1; upstream := 2 |} in
+  let p := {| pp_names := []; pp_state := PPresent; pp_update_cache := true; pp_upgrade := true |} in
+  pr_changed (fst (pacman p true {| pdb := d; plog := [] |})) = false
+  /\ pr_changed (fst (pacman p false {| pdb := d; plog := [] |})) = true
+  /\ known_check_skips_refresh p d = true.
+Proof. exact K24_check_skips_refresh_refuted. Qed.
